@@ -615,8 +615,8 @@ def rule_E9(ctx):
         if any(isinstance(x, ast.Subscript) and ast.unparse(x.value) == 'self' and not isinstance(x.slice, ast.Slice) for x in own_walk(f.node)) and not any(
                 isinstance(x, ast.Call) and isinstance(x.func, ast.Attribute) and x.func.attr in dec and x.func.attr != nm for x in own_walk(f.node)):
             targets.append((f, {'ReadError'}))
-    if len(targets) < 6:
-        raise AnalysisError(f'only {len(targets)} exp-Golomb setters/decoders found (floor 6)')
+    if len([t for t in targets if 'CreationError' in t[1]]) < 4 or len(targets) < 5:
+        raise AnalysisError(f'only {len(targets)} exp-Golomb setters/decoders found (floor: 4 setters + 1 decoder)')
     for f, exc in targets:
         g = G.find_guard(f, lambda t: ast.unparse(t) in ('bitstring.options.lsb0', 'bitstring.options.lsb0 is True', 'options.lsb0'), exc=exc)
         if g is None:
@@ -705,6 +705,15 @@ def rule_E10(ctx):
         r.fail(ext[0].key, 'extend(array.array): typecode not consulted', 'the item kind (signed/unsigned/float) of the foreign array is not checked', loc=ext[0].loc(ext[1]))
     else:
         r.ok('extend typecode')
+    # the byte order and kind are in the dtype NAME: the acceptance test must compare the names (or the dtypes) too
+    tests = [ast.unparse(x.test) for x in ast.walk(ext[1]) if isinstance(x, ast.If) and G.raises_in(x.body)]
+    import re as _re
+    if not any(('.name' in t and 'other_dtype' in t) or _re.search(r'_dtype\s*!=|!=\s*other_dtype\b(?!\.)', t) for t in tests):
+        r.fail(ext[0].key, 'extend(array.array): dtype names not compared', 'the acceptance test no longer compares the dtype names: a native-endian '
+               'array.array is accepted by an Array of the opposite byte order (same width and kind) and its bytes are re-read swapped',
+               loc=ext[0].loc(ext[1]))
+    else:
+        r.ok('extend names')
     if 'itemsize' not in res['equals'][2]:
         r.fail(res['equals'][0].key, 'equals(array.array): itemsize not consulted', 'equality with an array.array must compare item widths', loc=res['equals'][0].loc())
     else:
@@ -735,4 +744,120 @@ def rule_E11(ctx):
                 r.ok(f.key)
     if n < 2:
         raise AnalysisError('replace/_replace with a count parameter not found')
+    return r
+
+
+# ---------------------------------------------------------------------------------------------- OPT / OPTDEP / EQ1
+def _truthy_uses(f, p):
+    out = []
+    for x in own_walk(f.node):
+        tests = []
+        if isinstance(x, (ast.If, ast.While, ast.IfExp)):
+            tests.append(x.test)
+        if isinstance(x, ast.BoolOp):
+            tests += x.values
+        if isinstance(x, ast.UnaryOp) and isinstance(x.op, ast.Not):
+            tests.append(x.operand)
+        for t in tests:
+            if isinstance(t, ast.Name) and t.id == p:
+                out.append(x)
+    return out
+
+
+def rule_OPT(ctx):
+    """An Optional[int|bool|float] parameter is tested with `is None`, never by truthiness (0 / False are values)."""
+    m = ctx.m
+    r = RuleResult('OPT', 'Optional numeric/bool parameters are defaulted with `is None`, not truthiness')
+    n = 0
+    for f in m.funcs.values():
+        a = f.node.args
+        defaults = dict(zip([x.arg for x in (a.posonlyargs + a.args)][::-1], a.defaults[::-1]))
+        defaults.update({k.arg: d for k, d in zip(a.kwonlyargs, a.kw_defaults) if d is not None})
+        for arg in a.posonlyargs + a.args + a.kwonlyargs:
+            if arg.annotation is None:
+                continue
+            ann = ast.unparse(arg.annotation)
+            opt = 'Optional' in ann or 'None' in ann
+            if not (opt and any(t in ann for t in ('int', 'bool', 'float'))):
+                continue
+            n += 1
+            uses = _truthy_uses(f, arg.arg)
+            # a re-binding `p = 0 if p is None else p` before the use makes it an ordinary number
+            rebinds = [x.lineno for x in own_walk(f.node) if isinstance(x, ast.Assign) and any(isinstance(t, ast.Name) and t.id == arg.arg for t in x.targets)]
+            uses = [u for u in uses if not any(ln < u.lineno for ln in rebinds)]
+            if uses:
+                r.fail(f.key, f'{arg.arg}: {norm(uses[0])[:60]}', f"'{arg.arg}' is {ann}: testing it by truthiness treats the legitimate value "
+                       f"{'False' if 'bool' in ann else '0'} like None (an explicit {'False' if 'bool' in ann else '0'} is overridden by the default, or skips the "
+                       'operation)', loc=f.loc(uses[0]))
+            else:
+                r.ok(f'{f.key}:{arg.arg}')
+    if n < 60:
+        raise AnalysisError(f'only {n} Optional numeric parameters found (floor 60)')
+    return r
+
+
+def rule_OPTDEP(ctx):
+    """Interpretations depend on no module option except the documented ones (lsb0 refusal of exp-Golomb, mxfp_overflow of e4m3/e5m2)."""
+    m = ctx.m
+    r = RuleResult('OPTDEP', 'registry getters/setters read no option except lsb0 (refusal) and mxfp_overflow (e4m3/e5m2 encoders)')
+    allowed = {'lsb0', 'mxfp_overflow'}
+    seen = set()
+    for e in m.registry:
+        for role in ('get_fn', 'set_fn'):
+            f = m.func_by_dotted(e[role]) if e[role] else None
+            if f is None or f.key in seen:
+                continue
+            seen.add(f.key)
+
+            def edge_ok(n, c, cs):
+                g = m.funcs[c[0]]
+                return not (g.name in ('__new__', '__init__', '_initialise') or g.name in m.promoters)
+            parent = ctx.reachable([ctx.node(f, 'Bits')], edge_filter=edge_ok)
+            bad = None
+            for nn in parent:
+                g = m.funcs[nn[0]]
+                for opt, node in ctx.option_reads(g, nn[1]):
+                    if opt not in allowed:
+                        bad = (nn, opt, node)
+                    elif opt == 'mxfp_overflow' and not e['name'].startswith(('e4m3', 'e5m2')):
+                        bad = (nn, opt, node)
+            if bad:
+                g = m.funcs[bad[0][0]]
+                r.fail(f.key, f"{e['name']}.{role[:3]}: options.{bad[1]}", f"the '{e['name']}' interpretation reaches a read of options.{bad[1]} in {g.key} "
+                       f"({ctx.fmt_path(ctx.path_to(parent, bad[0]))}): the same bits/value are now interpreted differently depending on an unrelated "
+                       'module option', loc=g.loc(bad[2]))
+            else:
+                r.ok(f"{e['name']}.{role[:3]}")
+    if len(seen) < 50:
+        raise AnalysisError(f'only {len(seen)} registry functions examined (floor 50)')
+    return r
+
+
+def rule_EQ1(ctx):
+    """== decides on the stores (all bits and the length); a lossy serialisation is never what is compared."""
+    m = ctx.m
+    r = RuleResult('EQ1', '__eq__ compares stores, never padded/lossy serialisations (tobytes, hex, bytes) alone')
+    lossy = {'tobytes', 'bytes', 'hex', 'tobitarray', '__bytes__'}
+    n = 0
+    for c in FAMILY:
+        for f in m.winner(c, '__eq__'):
+            n += 1
+            bad = None
+            for x in own_walk(f.node):
+                if isinstance(x, ast.Compare) and any(isinstance(o, (ast.Eq, ast.NotEq)) for o in x.ops):
+                    for side in [x.left] + x.comparators:
+                        for y in ast.walk(side):
+                            if isinstance(y, ast.Attribute) and y.attr in lossy and ast.unparse(y.value) in ('self', 'bs'):
+                                bad = x
+            if bad is not None and 'len(' not in ast.unparse(bad):
+                r.fail(f.key, bad, 'equality is decided on a zero-padded serialisation without the length: bitstrings of different lengths '
+                       '(and a bitstring and unequal bytes) compare equal', loc=f.loc(bad))
+            else:
+                r.ok(f'{c}.__eq__')
+    bs = m.classes['BitStore'].methods.get('__eq__')
+    if bs is None:
+        raise AnalysisError('anchor vanished: BitStore.__eq__')
+    if 'self._bitarray == other._bitarray' not in ast.unparse(bs.node) and 'modified_length' not in ast.unparse(bs.node):
+        raise AnalysisError('BitStore.__eq__: comparison form not recognised (needs a human)')
+    r.ok('BitStore.__eq__')
     return r
